@@ -7,6 +7,7 @@ import (
 	"strings"
 	"time"
 
+	"github.com/Trendyol/go-dcp/config"
 	"github.com/Trendyol/go-dcp/couchbase"
 	"github.com/Trendyol/go-dcp/models"
 	"github.com/couchbase/gocbcore/v10"
@@ -41,6 +42,7 @@ func init() {
 				{Scenario: "c19_hc", Params: mustJSON(HCParams{Mode: "patterns"}), Bound: 0, Shards: 4},
 				{Scenario: "c19_hc", Params: mustJSON(HCParams{Mode: "stop"}), Bound: b, Shards: 8},
 				{Scenario: "c19_hc", Params: mustJSON(HCParams{Mode: "calls"}), Bound: 0},
+				{Scenario: "c19_endpoints", Params: mustJSON(struct{}{}), Bound: 0, Shards: 2, Note: "what a failed ping is: per-service endpoint lists of a multi-node cluster with some nodes down"},
 			}
 		},
 	})
@@ -261,4 +263,80 @@ func (p *pingRec) Ping() (*models.PingResult, error) {
 		p.consec = 0
 	}
 	return res, err
+}
+
+// c19_endpoints: what counts as a failed ping. gocbcore reports, per service, one entry per node; a ping is
+// healthy iff the key-value service AND the management service each have at least one endpoint that answered
+// without error in state OK - wherever it stands in the list. Every shape over 1..3 endpoints per service
+// goes through the real client.Ping(); then five pings of that shape in a row through the real health
+// checker terminate the process iff the shape is a failure.
+func init() {
+	scenarios["c19_endpoints"] = func(raw json.RawMessage) *vrt.Scenario {
+		return &vrt.Scenario{Name: "c19_endpoints", FreeChoices: true, NoTimerAlt: true, Main: endpointsMain,
+			Classify: func(r *vrt.Result) []string {
+				expectCrash := strings.Contains(r.Outcome, "expect-crash")
+				switch {
+				case r.Status == vrt.StatusCrash && expectCrash, r.Status == vrt.StatusOK && !expectCrash:
+					return nil
+				case r.Status == vrt.StatusCrash:
+					return []string{"the process was terminated by the health check although every ping was healthy (" + r.Outcome + "): " + r.Crash.Value}
+				case r.Status == vrt.StatusOK:
+					return []string{"five consecutive failed pings did not terminate the process (" + r.Outcome + ")"}
+				}
+				return []string{"status " + r.Status.String()}
+			}}
+	}
+}
+
+func endpointsMain() {
+	resetGlobals()
+	shapes := [][]int{{1}, {0}, {2}, {0, 1}, {1, 0}, {2, 1}, {0, 0}, {0, 2, 1}, {1, 1, 0}, {0, 0, 0}} // 1 ok, 0 error, 2 timeout
+	ms := shapes[vrt.Choose(len(shapes), true, "kv-endpoints")]
+	gs := shapes[vrt.Choose(len(shapes), true, "mgmt-endpoints")]
+	healthy := func(s []int) bool {
+		for _, x := range s {
+			if x == 1 {
+				return true
+			}
+		}
+		return false
+	}
+	want := healthy(ms) && healthy(gs)
+	o := EnvOpts{Vbs: 1}
+	c := NewCluster(&o)
+	mk := func(s []int, base string) []gocbcore.EndpointPingResult {
+		var out []gocbcore.EndpointPingResult
+		for i, x := range s {
+			ep := gocbcore.EndpointPingResult{Endpoint: fmt.Sprintf("%s-%d", base, i), State: gocbcore.PingStateOK}
+			switch x {
+			case 0:
+				ep.State, ep.Error = gocbcore.PingStateError, gocbcore.ErrSocketClosed
+			case 2:
+				ep.State, ep.Error = gocbcore.PingStateTimeout, gocbcore.ErrTimeout
+			}
+			out = append(out, ep)
+		}
+		return out
+	}
+	c.PingShape = func() map[gocbcore.ServiceType][]gocbcore.EndpointPingResult {
+		return map[gocbcore.ServiceType][]gocbcore.EndpointPingResult{gocbcore.MemdService: mk(ms, "kv"), gocbcore.MgmtService: mk(gs, "mgmt")}
+	}
+	e := NewEnv(c, o)
+	desc := fmt.Sprintf("kv=%v mgmt=%v (1 ok, 0 error, 2 timeout)", ms, gs)
+	res, err := e.Client.Ping()
+	if (err == nil) != want {
+		vrt.Failf("%s: Ping() error = %v, want healthy = %v", desc, err, want)
+	}
+	if err == nil && (!strings.HasPrefix(res.MemdEndpoint, "kv-") || !strings.HasPrefix(res.MgmtEndpoint, "mgmt-")) {
+		vrt.Failf("%s: Ping() reports endpoints %q / %q", desc, res.MemdEndpoint, res.MgmtEndpoint)
+	}
+	if want {
+		vrt.SetOutcome(desc + " healthy")
+	} else {
+		vrt.SetOutcome(desc + " expect-crash")
+	}
+	hc := couchbase.NewHealthCheck(&config.HealthCheck{Interval: 2 * time.Second, Timeout: time.Second}, e.Client)
+	hc.Start()
+	vrt.Sleep(10 * time.Second)
+	hc.Stop()
 }
